@@ -196,6 +196,8 @@ def check(case):
     chain = None
     ctor = {"ctorres": {"type": "residual", "frequency": 2}} if case["ctor_mon"] else None
     S = cases.build_integrator(integ, P.mesh, P.disc, monitors=ctor)
+    P.field = fields[0]
+    labels_hist = sim.preuse_solver(P, S, case, cfls[0], variant=(sim.solver_history(case) if not ctor else 0))      # the solver under test may have a past; the reference never has
     # a caller may keep ONE stop dictionary and update its 'maxit' entry between calls (shared_stop) or build a new one for every call
     shared = {} if case.get("shared_stop") else None
 
